@@ -35,7 +35,7 @@ static Fields gen(Tape &t) {
   return f;
 }
 
-static GuardBuf &gb() { static GuardBuf g(16); return g; }
+static GuardBuf &gb() { static GuardBuf g(128); return g; }  // 512 KiB: long-mode texts reach ~25k characters (x4 bytes wide)
 
 template <class A> static Verdict check_type(const Fields &f, bool *nontrivial, std::string *key) {
   using Ch = typename A::Ch;
@@ -66,7 +66,8 @@ template <class A> static Verdict check_type(const Fields &f, bool *nontrivial, 
 
   int N = -1;
   VF_REQUIRE(A::ToStringCharsRequired(u, &N) == 0, "%s: charsRequired failed", A::name());
-  VF_REQUIRE(N >= 0 && N < 4000, "%s: implausible charsRequired %d", A::name(), N);
+  VF_REQUIRE(N >= 0, "%s: negative charsRequired %d", A::name(), N);
+  if (((size_t)N + 8) * sizeof(Ch) > gb().capacity()) return Verdict::discard();  // harness limit (guard buffer), not a property of the library
   // reference text from an ample buffer
   std::vector<Ch> ample((size_t)N + 64, (Ch)0x55);
   int w = -7;
